@@ -230,6 +230,46 @@ func TestC13(t *testing.T) {
 			run(d("of the decoy at a/plugin"), pc.path, sha256.New(), sum(decoy), false, "mismatch")
 		}
 	}
+	// ---- a bare file name as Cmd.Path (a hand-built exec.Cmd) with Cmd.Dir: the operating system runs Dir/name, never a
+	// same-named file from a directory of the host's PATH
+	{
+		root := filepath.Join(dir, "bare")
+		os.MkdirAll(filepath.Join(root, "pathdir"), 0o755)
+		os.MkdirAll(filepath.Join(root, "rundir"), 0o755)
+		real, decoy := script(19), []byte("#!/bin/sh\necho decoy >> "+marker+"\necho '1|1|tcp|127.0.0.1:1234'\nexec sleep 5\n")
+		os.WriteFile(filepath.Join(root, "rundir", "c13bare"), real, 0o755)
+		os.WriteFile(filepath.Join(root, "pathdir", "c13bare"), decoy, 0o755)
+		oldPath := os.Getenv("PATH")
+		os.Setenv("PATH", filepath.Join(root, "pathdir")+":"+oldPath)
+		sum := func(b []byte) []byte { h := sha256.New(); h.Write(b); return h.Sum(nil) }
+		for _, tc := range []struct {
+			name   string
+			sum    []byte
+			launch bool
+			werr   string
+		}{{"of the executed file (Dir/name)", sum(real), true, ""}, {"of a same-named file in a PATH directory", sum(decoy), false, "mismatch"}} {
+			os.Remove(marker)
+			cmd := &exec.Cmd{Path: "c13bare", Args: []string{"c13bare"}, Dir: filepath.Join(root, "rundir")}
+			c := plugin.NewClient(&plugin.ClientConfig{
+				HandshakeConfig: plugin.HandshakeConfig{MagicCookieKey: "K", MagicCookieValue: "v", ProtocolVersion: 1},
+				Plugins:         map[string]plugin.Plugin{}, Cmd: cmd,
+				SecureConfig: &plugin.SecureConfig{Checksum: tc.sum, Hash: sha256.New()},
+				StartTimeout: 5 * time.Second, Logger: hclog.NewNullLogger(),
+			})
+			_, err := c.Start()
+			c.Kill()
+			_, merr := os.Stat(marker)
+			out.Evaluations++
+			out.Distinct++
+			desc := "bare command name with Cmd.Dir, a same-named file on PATH, checksum=" + tc.name
+			if (merr == nil) != tc.launch {
+				out.Violations = append(out.Violations, enumViolation{Case: desc, Class: "S", Msg: fmt.Sprintf("binary launched=%v, expected %v (Start error: %v) [%s]", merr == nil, tc.launch, err, desc)})
+			} else if !tc.launch && !errors.Is(err, plugin.ErrChecksumsDoNotMatch) {
+				out.Violations = append(out.Violations, enumViolation{Case: desc, Class: "S", Msg: fmt.Sprintf("error %v is not ErrChecksumsDoNotMatch [%s]", err, desc)})
+			}
+		}
+		os.Setenv("PATH", oldPath)
+	}
 	// ---- a file larger than 1 GiB (sparse: a launcher, a hole, a payload behind the 1 GiB mark): the whole file counts
 	{
 		big := filepath.Join(dir, "big.sh")
